@@ -47,26 +47,38 @@ func (st Struct) generateMarshalBebopTo(w *iohelp.ErrorWriter, settings Generate
 func (st Struct) generateUnmarshalBebop(w *iohelp.ErrorWriter, settings GenerateSettings) {
 	exposedName := exposeName(st.Name, settings)
 	writeLine(w, "func (bbp *%s) UnmarshalBebop(buf []byte) (err error) {", exposedName)
-	if len(st.Fields) > 0 {
-		writeLine(w, "\tat := 0")
-	}
+	writeLine(w, "\t_, err = bbp.UnmarshalBebopN(buf)")
+	writeLine(w, "\treturn err")
+	writeCloseBlock(w)
+	// A struct has no length prefix on the wire, and the size of what was decoded is
+	// not the size of what was read when a nested message came from a newer schema.
+	// UnmarshalBebopN reports the bytes consumed so that an enclosing record can step
+	// over this struct exactly.
+	writeLine(w, "// UnmarshalBebopN is UnmarshalBebop which also reports how many bytes of buf the record occupied.")
+	writeLine(w, "func (bbp *%s) UnmarshalBebopN(buf []byte) (n int, err error) {", exposedName)
+	writeLine(w, "\tat := 0")
+	writeLine(w, "\terr = func() (err error) {")
 	for _, fd := range st.Fields {
 		name := exposeName(fd.Name, settings)
 		if st.ReadOnly {
 			name = unexposeName(fd.Name)
 		}
-		writeFieldReadByter("bbp."+name, fd.FieldType, w, settings, 1, true)
+		writeFieldReadByter("bbp."+name, fd.FieldType, w, settings, 2, true)
 	}
-	writeLine(w, "\treturn nil")
+	writeLine(w, "\t\treturn nil")
+	writeLine(w, "\t}()")
+	writeLine(w, "\treturn at, err")
 	writeCloseBlock(w)
 }
 
 func (st Struct) generateMustUnmarshalBebop(w *iohelp.ErrorWriter, settings GenerateSettings) {
 	exposedName := exposeName(st.Name, settings)
 	writeLine(w, "func (bbp *%s) MustUnmarshalBebop(buf []byte) {", exposedName)
-	if len(st.Fields) > 0 {
-		writeLine(w, "\tat := 0")
-	}
+	writeLine(w, "\tbbp.MustUnmarshalBebopN(buf)")
+	writeCloseBlock(w)
+	writeLine(w, "// MustUnmarshalBebopN is MustUnmarshalBebop which also reports how many bytes of buf the record occupied.")
+	writeLine(w, "func (bbp *%s) MustUnmarshalBebopN(buf []byte) int {", exposedName)
+	writeLine(w, "\tat := 0")
 	for _, fd := range st.Fields {
 		name := exposeName(fd.Name, settings)
 		if st.ReadOnly {
@@ -74,6 +86,7 @@ func (st Struct) generateMustUnmarshalBebop(w *iohelp.ErrorWriter, settings Gene
 		}
 		writeFieldReadByter("bbp."+name, fd.FieldType, w, settings, 1, false)
 	}
+	writeLine(w, "\treturn at")
 	writeCloseBlock(w)
 }
 
